@@ -1,0 +1,65 @@
+//go:build verif
+
+// Contracts for the verification machinery (comment-only; compiled only with -tags verif).
+// Syntax and semantics: see the verification directory's DESIGN.md. Keys are prefixed "mocks." by the loader.
+
+package mocks
+
+// ---------------------------------------------------------------------------------------------
+// C20: the mocks replay scripted expectations faithfully and report deviations.
+//
+// Ghost accounting: <mock>.reported counts the calls made on the test's ErrorReporter (attached to every
+// t.Errorf call site of the function under contract), so "a deviation is reported, and nothing else is" is an
+// equation on that counter.
+
+//@ ghost field SyncProducer.reported int
+//@ guarded SyncProducer.l: expectations, lastOffset
+
+// the configured topic partition counts: an override for the topic, else the default
+//@ func (pc *TopicConfig) partitions(topic) props C20
+//@   returns r
+//@   ensures[override_wins] haskey(pc.overridePartitions, topic) ==> r == pc.overridePartitions[topic]
+//@   ensures[default_otherwise] !haskey(pc.overridePartitions, topic) ==> r == pc.defaultPartitions
+//@   modifies nothing
+
+// one partitioner per topic, created on first use with the configured constructor and then reused
+//@ func SyncProducer.partitioner.newPartitioner(t)
+//@   returns p
+//@   modifies nothing
+//@ func (sp *SyncProducer) partitioner(topic) props C20
+//@   returns p
+//@   requires sp.partitioners != nil
+//@   ensures[cached] old(sp.partitioners[topic]) != nil ==> p == old(sp.partitioners[topic])
+//@   ensures[remembered] sp.partitioners[topic] == p
+//@   modifies map:sp.partitioners
+
+// user-supplied callbacks: they see the message; they do not reach into the mock (A-own)
+//@ func SyncProducer.SendMessage.CheckFunction(m)
+//@   returns e
+//@   modifies nothing
+
+// SendMessage: the first expectation is consumed by this message and decides its outcome.
+//@ func (sp *SyncProducer) SendMessage(msg) props C20
+//@   returns partition, offset, err
+//@   requires msg != nil && sp.partitioners != nil && sp.TopicConfig != nil
+//@   requires forall k :: 0 <= k && k < len(sp.expectations) ==> sp.expectations[k] != nil
+//@   assume_acq 0 <= sp.lastOffset && sp.lastOffset < 4611686018427387904
+//@   callsite ErrorReporter.Errorf: effect sp.reported == old(sp.reported) + 1
+//@   callsite ErrorReporter.Errorf: modifies sp.reported
+//@   ensures[consumes_first] acq(len(sp.expectations)) > 0 ==> len(sp.expectations) == acq(len(sp.expectations)) - 1 && forall k :: 0 <= k && k < len(sp.expectations) ==> sp.expectations[k] == acq(sp.expectations[k+1])
+//@   ensures[unexpected_input_reported] acq(len(sp.expectations)) == 0 ==> err == errOutOfExpectations && sp.reported == old(sp.reported) + 1 && len(sp.expectations) == 0 && sp.lastOffset == acq(sp.lastOffset)
+//@   ensures[success_is_scripted] acq(len(sp.expectations)) > 0 && err == nil ==> acq(sp.expectations[0]).Result == nil
+//@   ensures[success_offsets_increase] acq(len(sp.expectations)) > 0 && err == nil ==> sp.lastOffset == acq(sp.lastOffset) + 1 && offset == sp.lastOffset && msg.Offset == offset
+//@   ensures[failure_keeps_offset] err != nil ==> sp.lastOffset == acq(sp.lastOffset) && offset == -1 && partition == -1
+//@   ensures[scripted_error] acq(len(sp.expectations)) > 0 && err != nil && sp.reported == old(sp.reported) ==> err == acq(sp.expectations[0]).Result
+//@   ensures[nothing_else_reported] sp.reported == old(sp.reported) || sp.reported == old(sp.reported) + 1
+//@   ensures[quiet_success] err == nil ==> sp.reported == old(sp.reported)
+
+// Close: leftovers are reported, and nothing else
+//@ func (sp *SyncProducer) Close() props C20
+//@   returns err
+//@   callsite ErrorReporter.Errorf: effect sp.reported == old(sp.reported) + 1
+//@   callsite ErrorReporter.Errorf: modifies sp.reported
+//@   ensures[leftovers_reported] acq(len(sp.expectations)) > 0 ==> sp.reported == old(sp.reported) + 1
+//@   ensures[clean_close_is_quiet] acq(len(sp.expectations)) == 0 ==> sp.reported == old(sp.reported)
+//@   ensures[nil] err == nil
